@@ -179,3 +179,31 @@ Definition c01_e2e_case (auto binned2 : bool) (C1 C2 : list obj) (cfgs : list bi
   code [ mat4_ok exact model impl_counts;
          mat4_ok exact spec impl_counts;
          qmat_eqb (sws C1 true) sw1 && qmat_eqb (sws C2 binned2) sw2 ].
+
+(* ---------- stored patch radii (Metadata.compute) and their use by the linkage ---------- *)
+(* The radius stored with a patch is the largest separation of its objects from the STORED centre
+   (the externally given one when centres are given, else the weighted mean of the data).
+   from_catalogs bounds the extent of patch i around the reference centre c by the maximum over
+   the catalogs of (their radius + separation of their centre from c).  Abstract metric [ang]
+   (the great-circle angle; symmetry and triangle inequality: Props/C14.v). *)
+Definition radius_of {P : Type} (ang : P -> P -> Q) (c : P) (A : list (P * Q)) : Q :=
+  qmax_list (map (fun a => ang (fst a) c) A).
+Definition extent_of {P : Type} (ang : P -> P -> Q) (c : P) (cats : list (P * list (P * Q))) : Q :=
+  qmax_list (map (fun cA => radius_of ang (fst cA) (snd cA) + ang c (fst cA)) cats).
+
+(* the same on the correspondence scale (squared chords of the implementation's unit vectors) *)
+Definition radius2 (c : obj) (A : list obj) : Q := qmax_list (map (fun o => dist2 o c) A).
+Definition covered (c : obj) (t : Q) (A : list obj) : bool := forallb (fun o => Qleb (dist2 o c) t) A.
+Definition obj_origin : obj := {| ox := 0; oy := 0; oz := 0; ow := 0; obin := 0; opatch := 0 |}.
+
+(* L3 (per catalog): cens = stored centres (one per patch, as objects); tlo, thi = squared chords
+   bracketing the stored radius of each patch (radius -/+ the rounding allowance of the
+   implementation's own float distance).  flag0: the model radius (largest squared chord of an
+   object of the patch from the stored centre) is the stored radius; flag1: the stored radius
+   covers every object of the patch around the stored centre (hypothesis of the pruning theorems) *)
+Definition c01_cover_case (C : list obj) (cens : list obj) (tlo thi : list Q) : nat :=
+  let np := length cens in
+  let cen := fun i => nth i cens obj_origin in
+  code [ forallb (fun i => let r := radius2 (cen i) (sel C i None) in
+                           Qleb (nth i tlo 0) r && Qleb r (nth i thi 0)) (seq 0 np);
+         forallb (fun i => covered (cen i) (nth i thi 0) (sel C i None)) (seq 0 np) ].
